@@ -27,7 +27,8 @@ META = {
         'place to the arrays they receive (text keys are upper-cased on '
         'copies); (guard) no bounds test on a table is separated from the '
         'indexing it protects by a transposition or other re-binding of the '
-        'table.'),
+        'table.'
+        ' (typed, unfiltered) in xmatch the key is never compared with the candidate array before the type-rank filter.'),
     'not_decided': (
         'Positions returned for all key vectors, wildcard translation, INDEX '
         'addressing - value-level case analysis.'),
@@ -202,7 +203,13 @@ def rule_typed(ctx):
         if isinstance(t, ast.Name) and isinstance(v, ast.Subscript) and \
                 'LOGIC_OPERATORS' in norm_src(v.value):
             opvars.add(t.id)
-    if not opvars:
+    # ... or looked up where it is applied: LOGIC_OPERATORS[op](value, crit)
+    direct = [(g0, n) for g0 in scopes
+              for n in (own_nodes(g0) if g0 is xfi else ast.walk(g0.node))
+              if isinstance(n, ast.Call) and isinstance(
+                  n.func, ast.Subscript) and 'LOGIC_OPERATORS' in norm_src(
+                  n.func.value) and n.args]
+    if not opvars and not direct:
         raise AnalysisError('_xfilter: comparison operator lookup not found')
 
     # helpers the operator is handed to - called, or bound with
@@ -250,6 +257,8 @@ def rule_typed(ctx):
             if isinstance(n, ast.Call) and isinstance(n.func, ast.Name) and \
                     n.func.id in ops_here and n.args:
                 cmp_calls.append((g, n))
+    cmp_calls += [d for d in direct if not any(d[1] is c for _g, c in
+                                               cmp_calls)]
     if not cmp_calls:
         raise AnalysisError('_xfilter: no call of the comparison operator')
     for g, call in cmp_calls:
@@ -352,6 +361,22 @@ def rule_typed(ctx):
             rr.ok('xmatch scans only candidates whose rank equals the lookup '
                   "value's (filter `%s`)" % norm_src(filt.value),
                   '%s:%d' % (xm.module.rel, filt.lineno))
+    # ... and the key is never compared with the *unfiltered* candidates
+    if len(prm) >= 5:
+        rr.instances += 1
+        raw = [n for n in own_nodes(xm) if isinstance(n, ast.Compare) and
+               {prm[1], prm[4]} <= {x.id for x in [n.left] + list(
+                   n.comparators) if isinstance(x, ast.Name)}]
+        if raw:
+            rr.fail(key_of(xm, 'key compared with unfiltered candidates'),
+                    'xmatch evaluates `%s`: the key is compared with every '
+                    'candidate, whatever its type rank - TRUE == 1 and FALSE '
+                    '== 0 compare equal, so a logical matches a number' %
+                    norm_src(raw[0]), file=xm.module.rel,
+                    function=xm.qualname, line=raw[0].lineno)
+        else:
+            rr.ok('xmatch never compares the key with the unfiltered '
+                  'candidate array', xm.module.rel)
     # three modes, exhaustive, with the right comparison direction
     top_if = [n for n in xm.node.body if isinstance(n, ast.If)]
     mode_if = None
